@@ -99,7 +99,8 @@ func c01R10(p *core.Prog, r *core.Report) {
 		if len(fn.Blocks) == 0 {
 			continue
 		}
-		if pk := core.FuncPkg(fn); pk == nil || pk.Path() == modPath("types/descriptor") {
+		// package mod maintains the inline data itself (C13.R3 decides what it stores there)
+		if pk := core.FuncPkg(fn); pk == nil || pk.Path() == modPath("types/descriptor") || pk.Path() == modPath("mod") {
 			continue
 		}
 		lab := labeler{}
